@@ -266,7 +266,7 @@ func (c16) RunCase(c *core.Ctx) {
 	sort.Strings(baseKeys)
 	base.real = z.Struct(sch)
 	base.desc = fmt.Sprintf("S0 = z.Struct(%v)", baseKeys)
-	for i := 0; i < r.Intn(10); i++ {
+	for i := 0; i < []int{0, 0, 0, 1, 2, 3, 5, 6, 7, 9}[r.Intn(10)]; i++ {
 		id, t := h.newTest()
 		base.real = base.real.Test(t)
 		base.tests = append(base.tests, id)
@@ -328,8 +328,82 @@ func (c16) RunCase(c *core.Ctx) {
 		}
 		var nm *c16Model
 		mutated := -1
-		op := []int{0, 1, 2, 3, 4, 5, 5, 5, 6, 6, 7}[r.Intn(11)]
+		op := []int{0, 1, 2, 3, 4, 5, 5, 5, 6, 6, 7, 8, 9}[r.Intn(13)]
 		switch op {
+		case 9: // composite: two rule-less schemas merged twice with one rule-only schema, then rules are added to several of the results
+			mkPlain := func() *c16Model {
+				m := &c16Model{fields: map[string]z.ZogSchema{}, parent: -1}
+				sc := z.Schema{}
+				k := c16Keys[r.Intn(len(c16Keys))]
+				ch := c16Child(k, r.Intn(3))
+				sc[k], m.fields[k] = ch, ch
+				m.real = z.Struct(sc)
+				m.desc = fmt.Sprintf("S%d = z.Struct(%v)", len(schemas), keysOfSchema(m.fields))
+				schemas = append(schemas, m)
+				history = append(history, m.desc)
+				return m
+			}
+			a, b2 := mkPlain(), mkPlain()
+			rules := &c16Model{fields: map[string]z.ZogSchema{}, parent: -1, real: z.Struct(z.Schema{})}
+			for i := 0; i < []int{3, 5, 6, 7, 9}[r.Intn(5)]; i++ {
+				id, t := h.newTest()
+				rules.real = rules.real.Test(t)
+				rules.tests = append(rules.tests, id)
+				id2, pt := h.newPost()
+				if i%2 == 0 {
+					rules.real = rules.real.PostTransform(pt)
+					rules.posts = append(rules.posts, id2)
+				}
+			}
+			rules.desc = fmt.Sprintf("S%d = z.Struct({}) with tests %v posts %v", len(schemas), rules.tests, rules.posts)
+			schemas = append(schemas, rules)
+			history = append(history, rules.desc)
+			var merged []*c16Model
+			for k := 0; k < 2; k++ {
+				m := &c16Model{fields: copyFields(a.fields), parent: -1}
+				for kk, v := range b2.fields {
+					m.fields[kk] = v
+				}
+				m.tests = append([]int{}, rules.tests...)
+				m.posts = append([]int{}, rules.posts...)
+				m.real = a.real.Merge(b2.real, rules.real)
+				m.desc = fmt.Sprintf("S%d = S%d.Merge(S%d, S%d)", len(schemas), len(schemas)-3-k, len(schemas)-2-k, len(schemas)-1-k)
+				schemas = append(schemas, m)
+				history = append(history, m.desc)
+				merged = append(merged, m)
+			}
+			for _, m := range append(merged, rules) {
+				id, t := h.newTest()
+				m.real = m.real.Test(t)
+				m.tests = append(m.tests, id)
+				id2, pt := h.newPost()
+				m.real = m.real.PostTransform(pt)
+				m.posts = append(m.posts, id2)
+				history = append(history, fmt.Sprintf("(%s).Test(test%d).PostTransform(post%d)", strings.SplitN(m.desc, " ", 2)[0], id, id2))
+			}
+			nontrivial = true
+			before = nil // several schemas were created and extended in this composite step: snapshots do not apply
+		case 8: // a new, independent schema: no fields (or one), only struct-level rules (3, 5, 6, 7 or 9 of them leave spare capacity)
+			nm = &c16Model{fields: map[string]z.ZogSchema{}, parent: -1}
+			sc := z.Schema{}
+			if r.Bool() {
+				k := c16Keys[r.Intn(len(c16Keys))]
+				ch := c16Child(k, r.Intn(3))
+				sc[k] = ch
+				nm.fields[k] = ch
+			}
+			nm.real = z.Struct(sc)
+			for i := 0; i < []int{0, 1, 3, 5, 6, 7, 9}[r.Intn(7)]; i++ {
+				id, t := h.newTest()
+				nm.real = nm.real.Test(t)
+				nm.tests = append(nm.tests, id)
+			}
+			for i := 0; i < []int{0, 1, 3, 5}[r.Intn(4)]; i++ {
+				id, pt := h.newPost()
+				nm.real = nm.real.PostTransform(pt)
+				nm.posts = append(nm.posts, id)
+			}
+			nm.desc = fmt.Sprintf("S%d = z.Struct(%v) with tests %v posts %v", len(schemas), keysOfSchema(nm.fields), nm.tests, nm.posts)
 		case 0, 1: // Pick
 			args, desc, set := selArgs(r, allKeys)
 			nm = &c16Model{fields: map[string]z.ZogSchema{}, tests: append([]int{}, sm.tests...), posts: append([]int{}, sm.posts...), parent: src}
@@ -381,7 +455,7 @@ func (c16) RunCase(c *core.Ctx) {
 			nm.desc = fmt.Sprintf("S%d = S%d.Extend(%v)", len(schemas), src, ks)
 		case 5: // Merge
 			others := []int{r.Intn(len(schemas))}
-			if r.Bool() {
+			for r.Intn(10) < 6 && len(others) < 4 {
 				others = append(others, r.Intn(len(schemas)))
 			}
 			nm = &c16Model{fields: copyFields(sm.fields), tests: append([]int{}, sm.tests...), posts: append([]int{}, sm.posts...), parent: src}
@@ -419,6 +493,11 @@ func (c16) RunCase(c *core.Ctx) {
 			sm.extended = true
 			mutated = src
 			history = append(history, fmt.Sprintf("S%d.PostTransform(post%d)", src, id))
+		}
+		if nm != nil && nm.parent == -1 {
+			schemas = append(schemas, nm)
+			history = append(history, nm.desc)
+			nm = nil
 		}
 		if nm != nil {
 			derivCount[src]++
